@@ -253,4 +253,5 @@ def run(ctx):
     ctx.section(c02._falsy, ctx, index)
     ctx.section(c10._memoised, ctx)
     ctx.section(c02._escape, ctx, index)
+    ctx.section(c02._exacttype, ctx, index)
 
